@@ -298,7 +298,7 @@ def compare_line(case, i, il, m, s, tags):
         if s not in ("", "*") and fields(s) != dict(shape="1", back="1", emitted="1"):
             return ("spec", "libc hypothesis fails on this double: " + s)
         return None
-    if kind not in ("ser", "rt", "sset"):
+    if kind not in ("ser", "rt", "sset", "cpd"):
         return None if il == m else ("model", "implementation differs from the Lean model")
     # ---- what the implementation returned
     w = il.split(" ## ")[0].split(" ")
@@ -306,7 +306,8 @@ def compare_line(case, i, il, m, s, tags):
         return ("spec" if il != m else "model", "no text returned: " + il[:100])
     length, slen = int(w[0]), int(w[1])
     text = b"" if w[2] == "-" else bytes.fromhex(w[2])
-    tree = ('s', b"" if op[3] == "-" else bytes.fromhex(op[3])) if kind == "sset" else parse_dump(op[2])
+    tree = ('s', b"" if op[3] == "-" else bytes.fromhex(op[3])) if kind == "sset" else \
+        ('d', int(op[3], 16), None) if kind == "cpd" else parse_dump(op[2])
     flags = int(op[1])
     inscope, utf8 = scope(tree)
     # (1) reported length = text length = strlen (for every tree, inside the property or not)
@@ -571,6 +572,11 @@ def gen(rng, tier):
         if not finite(bits):
             bits = d2b(1.5)
         yield {"lines": ["rt %d %s" % (f, dump(('a', [('d', bits, t)]))) for f in (0, 4, 35)]}
+    # a double that retains its source text, deep-copied, the copy set to another value
+    for t in TEXTS_OK[:22]:
+        b2 = d2b(float(t) * 1.5 + 0.75)
+        if finite(b2):
+            yield {"lines": ["cpd %d %s %016x" % (f, dump(('d', d2b(float(t)), t)), b2) for f in (0, 4)]}
     n = 4000 if quick else 120000
     for _ in range(n):
         b = rand_double_bits(rng)
